@@ -124,6 +124,26 @@ func (rn *runner) replay(path string) {
 		if v.rec == nil {
 			continue
 		}
+		if toks[0] == "hist" {
+			var steps []hstep
+			for len(s.t) > 0 {
+				op := s.next()
+				id, _ := strconv.Atoi(s.next())
+				rec := s.defs[id]
+				if rec == nil {
+					panic("replay: hist step on unknown record")
+				}
+				if op == "S" {
+					key := s.next()
+					steps = append(steps, hstep{op: 'S', rec: rec, key: key, v: s.value()})
+				} else {
+					steps = append(steps, hstep{op: op[0], rec: rec})
+				}
+			}
+			in, obs := rn.runHistory(v.rec, steps)
+			rn.out.Case(in, obs, true, "stream:replay", "op:hist")
+			continue
+		}
 		switch toks[0] {
 		case "togo":
 			rn.caseTogo(v.rec, target, "stream:replay")
